@@ -1,6 +1,6 @@
 (* ApiRadix.v — correspondence entry points for C06.  Definitions only. *)
 From Coq Require Import ZArith List Bool.
-From Mpir Require Import Word DivDefs RadixDefs ApiBasic.
+From Mpir Require Import Word Limbs DivDefs RadixDefs ApiBasic SetStrCDefs.
 From MpirGen Require Import Gen_Consts.
 Import ListNotations.
 Local Open Scope Z_scope.
@@ -34,9 +34,10 @@ Definition api_mpn_get_str : api := fun a =>
             | None => mpn_get_str x base cpl bb
             end in
   [TB (match ds with [] => [0] | _ => ds end)].
+(* mpn_set_str: the executable model is set_str.c AS CODED (SetStrCDefs.v: basecase, power table, divide and conquer, bit packing,
+   threshold choice with the regenerated thresholds); -1: the model left the modelled area (excluded by C06_mpn_set_str_as_coded) *)
 Definition api_mpn_set_str : api := fun a =>
-  let base := argz a 0 in let '(cpl, me, bb, bbi) := base_entry base in
-  [TZ (match log2_exact base with Some _ => horner base (argb a 1) | None => mpn_set_str (argb a 1) base cpl end)].
+  [TZ (match SetStrCDefs.mpn_set_str (argb a 1) (argz a 0) with Some l => Limbs.eval l | None => -1 end)].
 (* mpq_set_str: numerator up to the first '/', denominator after it *)
 Fixpoint split_slash (s : list Z) (acc : list Z) : list Z * option (list Z) :=
   match s with
